@@ -132,3 +132,49 @@ func verifFrameIs(p *eioparser.Packet, want []byte) bool {
 	}
 	return verifEqBytes(p.Data[3:3+len(want)], want)
 }
+
+// C15_stop_restart: the user stops the client (Manager.Close) in the middle of a reconnection cycle - after a of the
+// back-off delays have been computed (a = 0..3) - and later opens it again while the server is still unreachable. The
+// stop resets the back-off, so the new open starts a full reconnection cycle of its own: every one of its N attempts
+// is made and announced (numbered from 1 again), and reconnect_failed is announced exactly once at the end.
+//
+//verif:unwind 16
+//verif:rand concrete
+func verifH_C15_stop_restart() {
+	N := verifChoose(1, 3)
+	a := verifChoose(0, 3)
+	m, _ := verifClientWorld(&verifPipeParser{}, "/")
+	m.url = "http://127.0.0.1:1/socket.io"
+	m.state = clientConnStateDisconnected
+	m.noReconnection = false
+	m.skipReconnect = false
+	m.reconnectionAttempts = uint32(N)
+	m.backoff = newBackoff(time.Millisecond, 2*time.Millisecond, 0)
+	for i := 0; i < a; i++ {
+		m.backoff.duration() // the cycle that is interrupted has got this far
+	}
+	var attemptsSeen []uint32
+	failed := 0
+	m.OnReconnectAttempt(func(x uint32) { attemptsSeen = append(attemptsSeen, x) })
+	m.OnReconnectFailed(func() { failed++ })
+	m.Close()
+	verifWaitQuiescent()
+	verifAssert(m.backoff.attempts() == 0, "stopping the client resets its back-off")
+	verifAssert(len(attemptsSeen) == 0 && failed == 0, "a stopped client does not reconnect by itself")
+	// the user opens it again; the server is still down
+	m.skipReconnectMu.Lock()
+	m.skipReconnect = false
+	m.skipReconnectMu.Unlock()
+	verifDialPlan(100, eio.ClientSocket(&verifEIOClient{}))
+	m.open()
+	verifWaitQuiescent()
+	if verifIsNative() {
+		time.Sleep(300 * time.Millisecond)
+	}
+	verifAssert(len(attemptsSeen) == N, "opening again starts a full reconnection cycle: every attempt is made and announced")
+	for i, x := range attemptsSeen {
+		verifAssert(x == uint32(i+1), "attempts are numbered 1, 2, 3, ...")
+	}
+	verifAssert(failed == 1, "reconnect_failed is announced exactly once when the cycle is exhausted")
+	verifReach("end")
+}
